@@ -15,10 +15,16 @@ Theorem C18_layout_eq_componentwise : forall a b, layout_eqb a b = true <-> layo
 Proof. exact layout_eqb_iff. Qed.
 Print Assumptions C18_layout_eq_componentwise.
 
-(* the model of __eq__ is the spec's component-wise function on every pair of operands (any kinds) *)
+(* definitional link (spec_gval_eq is the same recursion written again): the check's oracle function is the model's *)
 Theorem C18_eq_model_is_spec : forall a b, gval_eqb a b = spec_gval_eq a b.
 Proof. exact gval_eqb_spec. Qed.
 Print Assumptions C18_eq_model_is_spec.
+
+(* an independent characterisation: two layouts are == exactly when their NORMAL FORMS are identical (every number in
+   lowest terms, webvtt_positioning dropped) *)
+Theorem C18_eq_iff_same_normal_form : forall a b, layout_eqb a b = true <-> norm_layout a = norm_layout b.
+Proof. exact layout_eqb_norm. Qed.
+Print Assumptions C18_eq_iff_same_normal_form.
 
 (* reflexive (on geometry values), symmetric, transitive *)
 Theorem C18_eq_equivalence :
@@ -37,17 +43,11 @@ Proof. exact gval_hash_eq. Qed.
 Print Assumptions C18_eq_implies_hash_eq.
 
 (* ---- Size.from_string: accepts exactly the size language, for ALL strings -------------------------------- *)
-(* Python's `$` matches before one final newline: the accepted set is { s | chop_final_newline s in L };
-   every rejection is the syntax error *)
-Theorem C18_parser_language_all_strings : forall s,
-  ((exists z, size_from_string s = Ok z) <-> size_lang (chop_final_newline s))
+(* (after `fix: Size.from_string accepted a size followed by a newline` and `fix: ... non-ASCII decimal digits` there is
+   no exception left: no trailing-newline case, ASCII digits only) accepted <-> in L; everything else is the syntax error *)
+Theorem C18_parser_language : forall s,
+  ((exists z, size_from_string s = Ok z) <-> size_lang s) /\ (~ size_lang s -> size_from_string s = Err ESyntax)
   /\ (forall e, size_from_string s = Err e -> e = ESyntax).
-Proof. exact from_string_language_all. Qed.
-Print Assumptions C18_parser_language_all_strings.
-
-(* on strings that do not end in a newline (every string over the statement's alphabet): exactly L, else the syntax error *)
-Theorem C18_parser_language : forall s, ~ ends_in_newline s ->
-  ((exists z, size_from_string s = Ok z) <-> size_lang s) /\ (~ size_lang s -> size_from_string s = Err ESyntax).
 Proof. exact from_string_language. Qed.
 Print Assumptions C18_parser_language.
 
@@ -63,7 +63,7 @@ Theorem C18_language_decidable : forall s, in_size_lang s = true <-> size_lang s
 Proof. exact in_size_lang_iff. Qed.
 Print Assumptions C18_language_decidable.
 
-Theorem C18_parser_meets_oracle : forall s, ~ ends_in_newline s -> ok_parse s (obs_of (size_from_string s)) = true.
+Theorem C18_parser_meets_oracle : forall s, ok_parse s (obs_of (size_from_string s)) = true.
 Proof. exact ok_parse_model. Qed.
 Print Assumptions C18_parser_meets_oracle.
 
@@ -87,6 +87,11 @@ Print Assumptions C18_print_stable.
 Theorem C18_print_two_decimals : forall v u, (0 <= v)%Q -> ok_print v u (size_str (mkSize v u)) = true.
 Proof. exact ok_print_model. Qed.
 Print Assumptions C18_print_two_decimals.
+
+(* what the statement fixes (<= 2 decimals, the unit, within 1/200; the check's print oracle) follows *)
+Theorem C18_print_meets_statement_oracle : forall v u, (0 <= v)%Q -> ok_print_stmt v u (size_str (mkSize v u)) = true.
+Proof. exact ok_print_stmt_model. Qed.
+Print Assumptions C18_print_meets_statement_oracle.
 
 (* printing depends on the value only, not on how the rational is represented *)
 Theorem C18_print_function_of_value : forall a b, size_equiv a b -> size_str a = size_str b.
@@ -113,7 +118,9 @@ Theorem C18_padding_attribute : forall toks, toks <> [] -> Forall (free_of 32) t
 Proof. exact padding_from_attr_tokens. Qed.
 Print Assumptions C18_padding_attribute.
 
-(* ---- relativize / fit are functions on values: what they do not recompute is returned as it was ----------- *)
+(* ---- relativize / fit are functions on values: what they do not recompute is returned as it was.  Lemmas read off the
+        model's definitions (the model is tied to the code by stream E of the check and by C13) ------------------- *)
+(* identity up to webvtt_positioning, which as_percentage_of drops *)
 Theorem C18_relativize_relative_is_identity : forall l w h, layout_relative l ->
   layout_as_pct l w h = Ok (mkLayout (l_origin l) (l_extent l) (l_padding l) (l_alignment l) None).
 Proof. exact layout_as_pct_relative. Qed.
@@ -159,3 +166,29 @@ Example C18_ex_padding :
   padding_from_attr (lit "1px 2px 3px 4px")
   = Ok {| pd_before := mkSize (1 # 1) PX; pd_end := mkSize (2 # 1) PX; pd_after := mkSize (3 # 1) PX; pd_start := mkSize (4 # 1) PX |}.
 Proof. vm_compute. reflexivity. Qed.
+
+(* instances of the theorems with hypotheses *)
+Example C18_ex_print_parse :
+  let a := mkSize (2675 # 1000) PX in
+  (0 <= s_val a)%Q /\ size_from_string (size_str a) = Ok (mkSize (67 # 25) PX) /\ hundredths (s_val a) = 268.
+Proof. vm_compute. repeat split; discriminate. Qed.
+Example C18_ex_padding_attribute :
+  let toks := [lit "1px"; lit "2px"; lit "3px"] in
+  toks <> [] /\ Forall (free_of 32) toks
+  /\ padding_from_attr (join [32] toks)
+     = Ok {| pd_before := mkSize (1 # 1) PX; pd_after := mkSize (3 # 1) PX; pd_start := mkSize (2 # 1) PX; pd_end := mkSize (2 # 1) PX |}.
+Proof.
+  split; [discriminate|]. split; [|vm_compute; reflexivity].
+  repeat constructor; intros H; discriminate.
+Qed.
+Example C18_ex_relative_layout :
+  let s v := mkSize v PCT in
+  let l := mkLayout (Some (mkPoint (s (10 # 1)) (s (20 # 1)))) (Some (mkStretch (s (50 # 1)) (s (5 # 1)))) None None (Some (lit "line:1")) in
+  layout_relative l /\ layout_as_pct l None None = Ok (mkLayout (l_origin l) (l_extent l) None None None)
+  /\ layout_fit l = Ok (mkLayout (l_origin l) (l_extent l) None None None).
+Proof. split; [repeat constructor|split; vm_compute; reflexivity]. Qed.
+Example C18_ex_norm :
+  let a := mkLayout (Some (mkPoint (mkSize (1 # 2) PCT) (mkSize (10 # 1) PCT))) None None None (Some (lit "line:5%")) in
+  let b := mkLayout (Some (mkPoint (mkSize (2 # 4) PCT) (mkSize (20 # 2) PCT))) None None None None in
+  a <> b /\ norm_layout a = norm_layout b /\ layout_eqb a b = true.
+Proof. split; [intros H; discriminate|split; vm_compute; reflexivity]. Qed.
